@@ -13,7 +13,7 @@ git apply --3way $SD/demo.diff || { patch -p1 < $SD/demo.diff || { echo "RESULT 
 # find demo tests
 TESTS=""
 for f in $(git status --porcelain | awk '{print $2}'); do
-  if [[ $f == */tests/*.rs ]]; then crate=$(echo $f | cut -d/ -f1); name=$(basename $f .rs); TESTS="$TESTS|$crate --test $name"; fi
+  if [[ $f == */tests/*.rs ]]; then crate=$(echo $f | cut -d/ -f1); case $crate in field) crate=plonky2_field;; util) crate=plonky2_util;; maybe_rayon) crate=plonky2_maybe_rayon;; esac; name=$(basename $f .rs); TESTS="$TESTS|$crate --test $name"; fi
 done
 if [ -z "$TESTS" ]; then
   # lib tests: collect added fn names after #[test]
